@@ -7,41 +7,62 @@ def Good : List FalseRet → Prop
   | [] => True
   | e :: h => e.d.t0 + e.d.ms * 1000000 ≤ e.at_ ∧ Good h
 
+/-- The ENOSYS fallback returns false only after the time-out BECAUSE each iteration sleeps at least as long as it accounts
+    for: `stepMs` milliseconds ≤ `sleepUs` microseconds.  Checked on the constants extracted from the CURRENT Semaphore.cpp
+    (Generated/SyncSemPoll.lean): a source in which the poll loop sleeps less than it counts fails here. -/
+theorem poll_sleep_covers_step : Poll.stepMs * 1000000 ≤ Poll.sleepUs * 1000 := by decide
+
+/-- the poll loop makes progress: its increment is positive -/
+theorem poll_step_pos : 0 < Poll.stepMs := by decide
+
+/-- the loop variable starts at 0: all of `timeout` is accounted for -/
+theorem poll_start_zero : Poll.start = 0 := by decide
+
 structure Inv (s : St) : Prop where
   cons : s.count + s.succ = s.init0 + s.posts
-  dlOk : ∀ t d, s.pc t = .twait d → d.ts.toNs = d.t0 + d.ms * 1000000 ∧ d.ts.valid = true
+  dlOk : ∀ t d, s.pc t = .twait d → d.ts.toNs = d.t0 + d.ms * 1000000 ∧ d.ts.valid = true ∧ d.t0 ≤ s.now
+  /-- at the `sem_trywait` of the iteration with loop variable `i`, at least `i - start` ms have passed since the call -/
+  pollTry : ∀ t d i, s.pc t = .pollTry d i → d.t0 + i * 1000000 ≤ s.now ∧ i < d.ms
+  /-- the `usleep` of that iteration ends not before call time + (i + stepMs - start) ms -/
+  pollSleep : ∀ t d i w, s.pc t = .pollSleep d i w → d.t0 + (i + Poll.stepMs) * 1000000 ≤ w
   good : Good s.flog
 
-theorem inv_init (count now eintr : Nat) : Inv (init count now eintr) := by
+theorem inv_init (count now eintr enosys : Nat) : Inv (init count now eintr enosys) := by
   constructor <;> simp [init, Good]
 
 theorem inv_step {s s' : St} {t : Tid} {a : Act Op} (h : Inv s) (hs : step s t a = some s') : Inv s' := by
-  obtain ⟨h1, h2, h3⟩ := h
+  obtain ⟨h1, h2, h4, h5, h3⟩ := h
+  have hcov := poll_sleep_covers_step
+  have hst := poll_start_zero
   cases a with
-  | tick q => simp [step] at hs; subst hs; exact ⟨h1, h2, h3⟩
+  | tick q =>
+    simp [step] at hs; subst hs
+    refine ⟨h1, ?_, ?_, h5, h3⟩
+    · intro t d hp; have := h2 t d hp; exact ⟨this.1, this.2.1, Nat.le_trans this.2.2 (Nat.le_add_right _ _)⟩
+    · intro t d i hp; have := h4 t d i hp; exact ⟨Nat.le_trans this.1 (Nat.le_add_right _ _), this.2⟩
   | call op =>
     simp only [step] at hs
     split at hs
     · rename_i hidle
       simp at hs; subst hs
-      cases op <;> (refine ⟨?_, ?_, ?_⟩ <;> intros <;> grind [upd, mkDeadline_ok])
+      cases op <;> (refine ⟨?_, ?_, ?_, ?_, ?_⟩ <;> intros <;> grind [upd, mkDeadline_ok])
     · simp at hs
   | run alt =>
     simp only [step] at hs
     cases hpc : s.pc t <;> simp only [hpc] at hs
     all_goals
-      try simp only [done] at hs
+      try simp only [done, goto] at hs
       (repeat' split at hs) <;> simp at hs <;> (try subst hs) <;>
-        (refine ⟨?_, ?_, ?_⟩ <;> intros <;> grind [upd, Good, expired_iff])
+        (refine ⟨?_, ?_, ?_, ?_, ?_⟩ <;> intros <;> grind [upd, Good, expired_iff])
 
 theorem inv_reach {count now eintr : Nat} {s : St} (h : Reach count now eintr s) : Inv s := by
   induction h with
-  | init => exact inv_init _ _ _
+  | init e => exact inv_init _ _ _ e
   | step _ hs ih => exact inv_step ih hs
 
 theorem init0_reach {count now eintr : Nat} {s : St} (h : Reach count now eintr s) : s.init0 = count := by
   induction h with
-  | init => rfl
+  | init _ => rfl
   | step _ hs ih =>
     rename_i s1 s2 t a _
     rw [← ih]
@@ -56,7 +77,7 @@ theorem init0_reach {count now eintr : Nat} {s : St} (h : Reach count now eintr 
       simp only [step] at hs
       cases hpc : s1.pc t <;> simp only [hpc] at hs
       all_goals
-        try simp only [done] at hs
+        try simp only [done, goto] at hs
         (repeat' split at hs) <;> simp at hs <;> (try subst hs) <;> rfl
 
 theorem good_mem {l : List FalseRet} (h : Good l) : ∀ e ∈ l, e.d.t0 + e.d.ms * 1000000 ≤ e.at_ := by
